@@ -23,6 +23,7 @@ def run(ctx):
     ar.fresh_part_rule(ctx, 'R7.2')
     ar.no_remove_rename_rule(ctx, 'R7.3')
     ar.compat_checks_rule(ctx, 'R7.4')
+    ar.kind_checks_rule(ctx, 'R7.4')
     ar.parts_first_rule(ctx, 'R7.9')
     ar.mode_params_rule(ctx, 'R7.10')
     from . import c02 as _c02b
